@@ -1,5 +1,6 @@
 import BreezyVerif.Model.C13
 import BreezyVerif.Lemmas.C13
+import BreezyVerif.Lemmas.C13Erase
 /-!
 C13 — theorems.  Every file system state, every operation list, every fault
 position (unbounded).
@@ -45,87 +46,313 @@ theorem rename_undo (fs fs' : FS) (a b : Path) (h : rename fs a b = .ok fs')
     · rename_i hpa
       split at h
       · cases h
-      · rename_i na hna
+      · rename_i hpb
         split at h
         · cases h
-        · rename_i hpb
-          split at h
-          · cases h
-          · rename_i hprefab
-            have hgb : get fs b = none := hbnone b (by simp [List.isPrefixOf_iff_prefix])
-            simp only [hgb, hb, Bool.false_eq_true, if_false] at h
-            cases h
-            -- facts about the moved state, through the bridge lemma
-            have G := get_moveL fs a b hb
-            have hba : b.isPrefixOf a = false := by
-              cases hh : b.isPrefixOf a
-              · rfl
-              · rw [hbnone a hh] at hna; cases hna
-            have hab' : a.isPrefixOf b = false := by
-              cases hh : a.isPrefixOf b <;> simp_all
-            have g_b : get (moveL fs a b) b = some na := by
-              rw [G]; unfold moveF
-              have : b.isPrefixOf b = true := by simp [List.isPrefixOf_iff_prefix]
-              simp [this, hna]
-            have g_pb : get (moveL fs a b) b.dropLast = some .dir := by
-              rw [G]; unfold moveF
-              have h1 := not_pre_dropLast hb0
-              have h2 : a.isPrefixOf b.dropLast = false := by
-                cases hh : a.isPrefixOf b.dropLast
+        · rename_i na hna
+          · split at h
+            · cases h
+            · rename_i hprefab
+              have hba : b.isPrefixOf a = false := by
+                cases hh : b.isPrefixOf a
                 · rfl
-                · rw [pre_dropLast hh] at hab'; cases hab'
-              simp only [h1, h2, Bool.false_eq_true, if_false]
-              simpa using hpb
-            have g_pa : get (moveL fs a b) a.dropLast = some .dir := by
-              rw [G]; unfold moveF
-              have h1 := not_pre_dropLast ha0
-              have h2 : b.isPrefixOf a.dropLast = false := by
-                cases hh : b.isPrefixOf a.dropLast
+                · rw [hbnone a hh] at hna; cases hna
+              simp only [hba, Bool.false_eq_true, if_false] at h
+              have hgb : get fs b = none := hbnone b (by simp [List.isPrefixOf_iff_prefix])
+              simp only [hgb, hb, Bool.false_eq_true, if_false] at h
+              cases h
+              -- facts about the moved state, through the bridge lemma
+              have G := get_moveL fs a b hb
+              have hba : b.isPrefixOf a = false := by
+                cases hh : b.isPrefixOf a
                 · rfl
-                · rw [pre_dropLast hh] at hba; cases hba
-              simp only [h1, h2, Bool.false_eq_true, if_false]
-              simpa using hpa
-            have g_a : get (moveL fs a b) a = none := by
-              rw [G]; unfold moveF
-              have : a.isPrefixOf a = true := by simp [List.isPrefixOf_iff_prefix]
-              simp [hba, this]
-            have k_a : keysUnder (moveL fs a b) a = false := by
-              unfold keysUnder moveL
-              rw [List.any_eq_false]
-              intro e' he'
-              rcases List.mem_map.mp he' with ⟨e, he, rfl⟩
-              by_cases hae : a.isPrefixOf e.1 = true
-              · simp only [hae, if_true]
-                intro hc
-                rcases pre_comparable hc (pre_append b (e.1.drop a.length)) with h1 | h1
-                · rw [h1] at hab'; cases hab'
-                · rw [h1] at hba; cases hba
-              · simp [hae]
-            unfold rename
-            have hroot' : ¬ (b = [] ∨ a = []) := fun h => h.elim hb0 ha0
-            have hba' : ¬ b = a := fun e => hab e.symm
-            simp only [hroot', if_false, g_b, g_pb, g_pa, ne_eq, not_true_eq_false, hba',
-              hba, Bool.false_eq_true, g_a, k_a]
-            rw [moveL_inverse fs a b hb]
+                · rw [hbnone a hh] at hna; cases hna
+              have hab' : a.isPrefixOf b = false := by
+                cases hh : a.isPrefixOf b <;> simp_all
+              have g_b : get (moveL fs a b) b = some na := by
+                rw [G]; unfold moveF
+                have : b.isPrefixOf b = true := by simp [List.isPrefixOf_iff_prefix]
+                simp [this, hna]
+              have g_pb : get (moveL fs a b) b.dropLast = some .dir := by
+                rw [G]; unfold moveF
+                have h1 := not_pre_dropLast hb0
+                have h2 : a.isPrefixOf b.dropLast = false := by
+                  cases hh : a.isPrefixOf b.dropLast
+                  · rfl
+                  · rw [pre_dropLast hh] at hab'; cases hab'
+                simp only [h1, h2, Bool.false_eq_true, if_false]
+                simpa using hpb
+              have g_pa : get (moveL fs a b) a.dropLast = some .dir := by
+                rw [G]; unfold moveF
+                have h1 := not_pre_dropLast ha0
+                have h2 : b.isPrefixOf a.dropLast = false := by
+                  cases hh : b.isPrefixOf a.dropLast
+                  · rfl
+                  · rw [pre_dropLast hh] at hba; cases hba
+                simp only [h1, h2, Bool.false_eq_true, if_false]
+                simpa using hpa
+              have g_a : get (moveL fs a b) a = none := by
+                rw [G]; unfold moveF
+                have : a.isPrefixOf a = true := by simp [List.isPrefixOf_iff_prefix]
+                simp [hba, this]
+              have k_a : keysUnder (moveL fs a b) a = false := by
+                unfold keysUnder moveL
+                rw [List.any_eq_false]
+                intro e' he'
+                rcases List.mem_map.mp he' with ⟨e, he, rfl⟩
+                by_cases hae : a.isPrefixOf e.1 = true
+                · simp only [hae, if_true]
+                  intro hc
+                  rcases pre_comparable hc (pre_append b (e.1.drop a.length)) with h1 | h1
+                  · rw [h1] at hab'; cases hab'
+                  · rw [h1] at hba; cases hba
+                · simp [hae]
+              unfold rename
+              have hroot' : ¬ (b = [] ∨ a = []) := fun h => h.elim hb0 ha0
+              have hba' : ¬ b = a := fun e => hab e.symm
+              simp only [hroot', if_false, g_b, g_pb, g_pa, ne_eq, not_true_eq_false, hba',
+                hba, hab', Bool.false_eq_true, g_a, k_a]
+              rw [moveL_inverse fs a b hb]
+
+/-- **Single-step inverse of a mode change.**  Setting the executable bit back
+to the journalled value re-creates the very same file system. -/
+theorem chmod_undo (fs fs' : FS) (p : Path) (x old : Bool) (h : chmod fs p x = .ok (fs', old)) :
+    undo fs' (.mode p old) = .ok fs := by
+  unfold chmod at h
+  split at h
+  · rename_i c o hg
+    cases h
+    simp only [undo, chmod, get_setExec_self x hg, Except.map, setExec_setExec x hg]
+  · cases h
+  · cases h
 
 /-- `rollback` undoes the newest journal entry first -/
-theorem rollback_snoc (fs : FS) (past : List (Path × Path)) (a b : Path) :
-    rollback fs (past ++ [(a, b)]) =
-      (match rename fs b a with | .ok fs1 => rollback fs1 past | .error e => .error e) := by
-  induction past with
-  | nil =>
-    simp only [List.nil_append, rollback]
-    cases rename fs b a <;> rfl
-  | cons p rest ih =>
-    obtain ⟨c, d⟩ := p
-    simp only [List.cons_append, rollback, ih]
-    cases rename fs b a <;> rfl
+theorem rollback_snoc (fs : FS) (past : List JEntry) (j : JEntry) :
+    rollback fs (past ++ [j]) =
+      (match undo fs j with | .ok fs1 => rollback fs1 past | .error e => (fs, some e)) := by
+  simp only [rollback, List.reverse_append, List.reverse_cons, List.reverse_nil, List.nil_append,
+    List.cons_append, rollbackRev]
+  cases undo fs j <;> simp
 
-/-- invariant step: a mover whose journal rolls back to `fs0` still does so
-after any further operations that clobber nothing, wherever the run stops -/
-theorem rollback_invariant (ops : List Op) (m : Mover) (fault : Option Nat) (fs0 : FS)
-    (h0 : rollback m.fs m.past = .ok fs0) (hn : noClobber m ops fault = true) :
-    rollback (runOps m ops fault).1.fs (runOps m ops fault).1.past = .ok fs0 := by
+/-- what one executed operation must satisfy for its effect to be undone exactly:
+a rename finds nothing at or below its target, a mode change is journalled or
+changes nothing -/
+def stepOk (jc : Bool) (m : Mover) (op : Op) : Bool :=
+  opNoClobber m.fs op && (jc || opNoModeChange m.fs op)
+
+/-- invariant step: one operation that satisfies `stepOk` keeps "the journal
+rolls back to `fs0`" -/
+theorem step_rollback (jc : Bool) (m m' : Mover) (op : Op) (fs0 : FS)
+    (hs : m.step jc op = .ok m') (h0 : rollback m.fs m.past = (fs0, none))
+    (hok : stepOk jc m op = true) : rollback m'.fs m'.past = (fs0, none) := by
+  simp only [stepOk, Bool.and_eq_true, Bool.or_eq_true] at hok
+  obtain ⟨hok, hmode⟩ := hok
+  cases op with
+  | rename a b =>
+    simp only [Mover.step] at hs
+    simp only [opNoClobber] at hok
+    cases hr : rename m.fs a b with
+    | ok fs' =>
+      simp only [hr] at hs hok
+      cases hs
+      simp only [Bool.and_eq_true, bne_iff_ne, ne_eq, Bool.not_eq_eq_eq_not, Bool.not_true] at hok
+      simp only [rollback_snoc, undo, rename_undo m.fs fs' a b hr hok.2 hok.1]
+      exact h0
+    | error e =>
+      simp only [hr] at hs
+      split at hs
+      · cases hs; exact h0
+      · cases hs
+  | preDelete a b =>
+    simp only [Mover.step] at hs
+    simp only [opNoClobber] at hok
+    cases hr : rename m.fs a b with
+    | ok fs' =>
+      simp only [hr] at hs hok
+      cases hs
+      simp only [Bool.and_eq_true, bne_iff_ne, ne_eq, Bool.not_eq_eq_eq_not, Bool.not_true] at hok
+      simp only [rollback_snoc, undo, rename_undo m.fs fs' a b hr hok.2 hok.1]
+      exact h0
+    | error e => simp only [hr] at hs; cases hs
+  | chmod p x =>
+    simp only [Mover.step] at hs
+    cases hc : chmod m.fs p x with
+    | error e => simp only [hc] at hs; cases hs
+    | ok r =>
+      obtain ⟨fs', old⟩ := r
+      simp only [hc] at hs
+      cases hs
+      cases jc with
+      | true =>
+        simp only [if_true, rollback_snoc, chmod_undo m.fs fs' p x old hc]
+        exact h0
+      | false =>
+        simp only [Bool.false_eq_true, if_false]
+        simp only [Bool.false_eq_true, false_or, opNoModeChange] at hmode
+        unfold chmod at hc
+        split at hc
+        · rename_i c o hg
+          cases hc
+          simp only [hg, beq_iff_eq] at hmode
+          subst hmode
+          rw [setExec_same hg]
+          exact h0
+        · cases hc
+        · cases hc
+
+/-- every executed operation satisfies `stepOk` -/
+def allStepsOk (jc : Bool) (m : Mover) : List Op → Option Nat → Bool
+  | [], _ => true
+  | op :: rest, fault =>
+    if fault = some 0 then true
+    else match m.step jc op with
+      | .ok m' => stepOk jc m op && allStepsOk jc m' rest (fault.map (· - 1))
+      | .error _ => true
+
+/-- `allStepsOk` is `noClobber` together with "journalled, or no mode changes" -/
+theorem allStepsOk_of (jc : Bool) (ops : List Op) (m : Mover) (fault : Option Nat)
+    (hn : noClobber jc m ops fault = true)
+    (hj : jc = true ∨ noModeChange jc m ops fault = true) : allStepsOk jc m ops fault = true := by
+  induction ops generalizing m fault with
+  | nil => rfl
+  | cons op rest ih =>
+    unfold allStepsOk
+    unfold noClobber at hn
+    by_cases hf : fault = some 0
+    · simp [hf]
+    · simp only [hf, if_false] at hn ⊢
+      cases hs : m.step jc op with
+      | error e => rfl
+      | ok m' =>
+        simp only [hs, Bool.and_eq_true] at hn ⊢
+        have hj' : jc = true ∨
+            (opNoModeChange m.fs op = true ∧ noModeChange jc m' rest (fault.map (· - 1)) = true) := by
+          rcases hj with hj | hj
+          · exact Or.inl hj
+          · unfold noModeChange at hj
+            simp only [hf, if_false, hs, Bool.and_eq_true] at hj
+            exact Or.inr hj
+        refine ⟨?_, ih m' _ hn.2 (hj'.imp id (·.2))⟩
+        simp only [stepOk, Bool.and_eq_true, Bool.or_eq_true]
+        exact ⟨hn.1, hj'.imp id (·.1)⟩
+
+/-- invariant: a mover whose journal rolls back to `fs0` still does so after any
+further operations that clobber nothing and whose mode changes are journalled
+(or change nothing), wherever the run stops -/
+theorem rollback_invariant (jc : Bool) (ops : List Op) (m : Mover) (fault : Option Nat) (fs0 : FS)
+    (h0 : rollback m.fs m.past = (fs0, none)) (hok : allStepsOk jc m ops fault = true) :
+    rollback (runOps jc m ops fault).1.fs (runOps jc m ops fault).1.past = (fs0, none) := by
+  induction ops generalizing m fault with
+  | nil => simpa [runOps] using h0
+  | cons op rest ih =>
+    unfold runOps
+    unfold allStepsOk at hok
+    by_cases hf : fault = some 0
+    · simpa [hf] using h0
+    · simp only [hf, if_false] at hok ⊢
+      cases hs : m.step jc op with
+      | error e => simpa [hs] using h0
+      | ok m' =>
+        simp only [hs, Bool.and_eq_true] at hok ⊢
+        exact ih m' _ (step_rollback jc m m' op fs0 hs h0 hok.1) hok.2
+
+/-- **A failure before the transform is committed restores every file and
+directory exactly** — contents, kinds, names AND executable bits — when mode
+changes are journalled (`jc = true`): whatever the operation list, wherever the
+fault or error strikes during the removal / insertion phases, if no executed
+rename clobbered anything, the rollback succeeds and yields the original file
+system. -/
+theorem rollback_restores (fs : FS) (ops : List Op) (fault : Option Nat)
+    (hn : noClobber true { fs := fs } ops fault = true) :
+    rollback (runOps true { fs := fs } ops fault).1.fs (runOps true { fs := fs } ops fault).1.past
+      = (fs, none) :=
+  rollback_invariant true ops { fs := fs } fault fs rfl (allStepsOk_of true ops _ fault hn (Or.inl rfl))
+
+/-- The same for the code as it is when `_set_executability` is NOT journalled
+(`jc = false`), under the additional excluding hypothesis that no executed mode
+change changed anything.  What is missing for the full statement is exactly
+`execbit_witness`. -/
+theorem rollback_restores_partial (fs : FS) (ops : List Op) (fault : Option Nat)
+    (hn : noClobber false { fs := fs } ops fault = true)
+    (hm : noModeChange false { fs := fs } ops fault = true) :
+    rollback (runOps false { fs := fs } ops fault).1.fs (runOps false { fs := fs } ops fault).1.past
+      = (fs, none) :=
+  rollback_invariant false ops { fs := fs } fault fs rfl (allStepsOk_of false ops _ fault hn (Or.inr hm))
+
+/-- an un-journalled run only ever journals renames -/
+def onlyRen (past : List JEntry) : Bool := past.all fun j => match j with | .ren _ _ => true | .mode _ _ => false
+
+theorem onlyRen_runOps (ops : List Op) (m : Mover) (fault : Option Nat) (h : onlyRen m.past = true) :
+    onlyRen (runOps false m ops fault).1.past = true := by
+  induction ops generalizing m fault with
+  | nil => simpa [runOps] using h
+  | cons op rest ih =>
+    unfold runOps
+    by_cases hf : fault = some 0
+    · simpa [hf] using h
+    · simp only [hf, if_false]
+      cases hs : m.step false op with
+      | error e => simpa using h
+      | ok m' =>
+        simp only
+        apply ih
+        cases op with
+        | rename a b =>
+          simp only [Mover.step] at hs
+          cases hr : rename m.fs a b with
+          | ok fs' => simp only [hr] at hs; cases hs; simpa [onlyRen] using h
+          | error e =>
+            simp only [hr] at hs
+            split at hs
+            · cases hs; exact h
+            · cases hs
+        | preDelete a b =>
+          simp only [Mover.step] at hs
+          cases hr : rename m.fs a b with
+          | ok fs' => simp only [hr] at hs; cases hs; simpa [onlyRen] using h
+          | error e => simp only [hr] at hs; cases hs
+        | chmod p x =>
+          simp only [Mover.step] at hs
+          cases hc : chmod m.fs p x with
+          | ok r => simp only [hc] at hs; cases hs; simpa using h
+          | error e => simp only [hc] at hs; cases hs
+
+/-- rolling back a rename-only journal on two file systems that differ in
+executable bits only succeeds on both or fails on both, with results that again
+differ in executable bits only -/
+theorem rollbackRev_erase_congr (js : List JEntry) (hjs : onlyRen js = true) (fs1 fs2 fs1' : FS)
+    (h : eraseExec fs1 = eraseExec fs2) (h1 : rollbackRev fs1 js none = (fs1', none)) :
+    ∃ fs2', rollbackRev fs2 js none = (fs2', none) ∧ eraseExec fs1' = eraseExec fs2' := by
+  induction js generalizing fs1 fs2 with
+  | nil =>
+    simp only [rollbackRev] at h1 ⊢
+    cases h1
+    exact ⟨fs2, rfl, h⟩
+  | cons j rest ih =>
+    simp only [onlyRen, List.all_cons, Bool.and_eq_true] at hjs
+    cases j with
+    | mode p o => simp at hjs
+    | ren a b =>
+      simp only [rollbackRev, undo, Option.map_none] at h1 ⊢
+      have hc := rename_erase_congr h b a
+      cases hr1 : rename fs1 b a with
+      | error e => simp [hr1] at h1
+      | ok g1 =>
+        simp only [hr1] at h1 hc
+        cases hr2 : rename fs2 b a with
+        | error e => simp [hr2, Except.map] at hc
+        | ok g2 =>
+          simp only [hr2, Except.map, Except.ok.injEq] at hc ⊢
+          exact ih (by simpa [onlyRen] using hjs.2) g1 g2 hc h1
+
+/-- invariant for the un-journalled code: the journal always rolls back to the
+original file system *up to executable bits* -/
+theorem rollback_invariant_modulo_exec (ops : List Op) (m : Mover) (fault : Option Nat) (fs0 : FS)
+    (hp : onlyRen m.past = true)
+    (h0 : ∃ r, rollback m.fs m.past = (r, none) ∧ eraseExec r = eraseExec fs0)
+    (hn : noClobber false m ops fault = true) :
+    ∃ r, rollback (runOps false m ops fault).1.fs (runOps false m ops fault).1.past = (r, none) ∧
+      eraseExec r = eraseExec fs0 := by
   induction ops generalizing m fault with
   | nil => simpa [runOps] using h0
   | cons op rest ih =>
@@ -134,54 +361,79 @@ theorem rollback_invariant (ops : List Op) (m : Mover) (fault : Option Nat) (fs0
     by_cases hf : fault = some 0
     · simpa [hf] using h0
     · simp only [hf, if_false] at hn ⊢
-      cases hs : m.step op with
+      cases hs : m.step false op with
       | error e => simpa [hs] using h0
       | ok m' =>
-        simp only [hs] at hn ⊢
-        rw [Bool.and_eq_true] at hn
-        apply ih m' _ _ hn.2
-        unfold Mover.step at hs
-        cases hr : rename m.fs op.src op.dst with
-        | ok fs' =>
-          simp only [hr] at hs hn
-          cases hs
-          simp only [Bool.and_eq_true, bne_iff_ne, ne_eq, Bool.not_eq_eq_eq_not, Bool.not_true] at hn
-          simp only [rollback_snoc]
-          rw [rename_undo m.fs fs' op.src op.dst hr hn.1.2 hn.1.1]
-          exact h0
-        | error e =>
-          simp only [hr] at hs
-          split at hs
-          · cases hs; exact h0
-          · cases hs
+        simp only [hs, Bool.and_eq_true] at hn ⊢
+        obtain ⟨r, hr, he⟩ := h0
+        cases op with
+        | rename a b =>
+          have hok : stepOk false m (.rename a b) = true := by simp [stepOk, hn.1, opNoModeChange]
+          have := step_rollback false m m' _ r hs hr hok
+          refine ih m' _ ?_ ⟨r, this, he⟩ hn.2
+          have := onlyRen_runOps [.rename a b] m none hp
+          simpa [runOps, hs] using this
+        | preDelete a b =>
+          have hok : stepOk false m (.preDelete a b) = true := by simp [stepOk, hn.1, opNoModeChange]
+          have := step_rollback false m m' _ r hs hr hok
+          refine ih m' _ ?_ ⟨r, this, he⟩ hn.2
+          have := onlyRen_runOps [.preDelete a b] m none hp
+          simpa [runOps, hs] using this
+        | chmod p x =>
+          simp only [Mover.step] at hs
+          cases hc : chmod m.fs p x with
+          | error e => simp only [hc] at hs; cases hs
+          | ok q =>
+            obtain ⟨fs', old⟩ := q
+            simp only [hc, Bool.false_eq_true, if_false] at hs
+            cases hs
+            have hfs' : eraseExec m.fs = eraseExec fs' := by
+              unfold chmod at hc
+              split at hc
+              · cases hc; exact (eraseExec_setExec _ _ _).symm
+              · cases hc
+              · cases hc
+            obtain ⟨r', hr', he'⟩ := rollbackRev_erase_congr m.past.reverse
+              (by simpa [onlyRen] using hp) m.fs fs' r hfs' hr
+            exact ih { m with fs := fs' } _ hp ⟨r', hr', he'.symm.trans he⟩ hn.2
 
-/-- **A failure before the transform is committed restores every file and
-directory exactly**: whatever the operation list, wherever the fault or error
-strikes during the removal / insertion phases, if no executed rename clobbered
-anything, the rollback succeeds and yields the original file system. -/
-theorem rollback_restores (fs : FS) (ops : List Op) (fault : Option Nat)
-    (hn : noClobber { fs := fs } ops fault = true) :
-    rollback (runOps { fs := fs } ops fault).1.fs (runOps { fs := fs } ops fault).1.past = .ok fs :=
-  rollback_invariant ops { fs := fs } fault fs rfl hn
+/-- **What the un-journalled code still guarantees**: after a failure anywhere
+in the removal / insertion phases the rollback succeeds and restores every
+path, kind, content and link target; only executable bits may differ. -/
+theorem rollback_restores_modulo_exec (fs : FS) (ops : List Op) (fault : Option Nat)
+    (hn : noClobber false { fs := fs } ops fault = true) :
+    ∃ r, rollback (runOps false { fs := fs } ops fault).1.fs
+            (runOps false { fs := fs } ops fault).1.past = (r, none) ∧
+      eraseExec r = eraseExec fs :=
+  rollback_invariant_modulo_exec ops { fs := fs } fault fs rfl ⟨fs, rfl, rfl⟩ hn
 
 /-- the same at the level of `apply`: a fault or error in the first two phases
-leaves files and metadata in the old state -/
-theorem apply_phase12_failure_restores (order : Order) (fs : FS) (ops : List Op)
+leaves files and metadata in the old state (journalled mode changes, or none) -/
+theorem apply_phase12_failure_restores (order : Order) (jc : Bool) (fs : FS) (ops : List Op)
     (f1 f2 : Option Nat) (e : Err)
-    (hn : noClobber { fs := fs } ops f1 = true)
-    (he : (runOps { fs := fs } ops f1).2 = some e) :
-    let o := apply order fs ops f1 f2
+    (hn : noClobber jc { fs := fs } ops f1 = true)
+    (hj : jc = true ∨ noModeChange jc { fs := fs } ops f1 = true)
+    (he : (runOps jc { fs := fs } ops f1).2 = some e) :
+    let o := apply order jc fs ops f1 f2
     o.fs = fs ∧ o.md = .old ∧ o.raised = some e ∧ o.rollbackFailed = false := by
-  have hr := rollback_restores fs ops f1 hn
-  unfold apply
-  cases hrun : runOps { fs := fs } ops f1 with
+  have hr := rollback_invariant jc ops { fs := fs } f1 fs rfl (allStepsOk_of jc ops _ f1 hn hj)
+  unfold apply applyF
+  cases hrun : runOps jc { fs := fs } ops f1 with
   | mk m oe =>
     rw [hrun] at he hr
     simp only at he hr
     subst he
     simp [hr]
 
-/-- deleting the pending paths does not disturb anything outside them -/
+theorem not_pre_of_ne_self {p q : Path} (h : p.isPrefixOf q = false) : p ≠ q := by
+  intro e
+  subst e
+  have : p.isPrefixOf p = true := by rw [List.isPrefixOf_iff_prefix]; exact List.prefix_refl p
+  rw [this] at h
+  cases h
+
+/-- deleting the pending paths does not disturb anything outside them, however
+far the loop gets (fault or failing `delete_any`) -/
 theorem get_runDeletions (fs : FS) (ps : List Path) (fault : Option Nat) (q : Path)
     (hq : ∀ p ∈ ps, p.isPrefixOf q = false) :
     get (runDeletions fs ps fault).1 q = get fs q := by
@@ -192,89 +444,256 @@ theorem get_runDeletions (fs : FS) (ps : List Path) (fault : Option Nat) (q : Pa
     by_cases hf : fault = some 0
     · simp [hf]
     · simp only [hf, if_false]
-      rw [ih _ _ (fun p' hp' => hq p' (by simp [hp']))]
-      rw [get_deleteAny, hq p (by simp)]
-      simp
-
-/-- the layout after successful removal + insertion phases -/
-def newLayout (fs : FS) (ops : List Op) : Mover := (runOps { fs := fs } ops none).1
+      cases hd : deleteOne fs p with
+      | error e => rfl
+      | ok fs' =>
+        simp only
+        rw [ih _ _ (fun p' hp' => hq p' (by simp [hp']))]
+        have hne : p ≠ q := not_pre_of_ne_self (hq p (by simp))
+        unfold deleteOne at hd
+        split at hd
+        · cases hd
+        · split at hd
+          · cases hd
+          · cases hd; rw [get_removeKey]; simp [hne]
+        · cases hd; rw [get_removeKey]; simp [hne]
 
 /-- **Metadata always agrees with the files** when the metadata is updated
 before the replaced content is discarded: every outcome of `apply` is either
 (old files, old metadata) or (new layout outside the pending-deletion area, new
 metadata) — for every operation list and every fault position in any phase. -/
-theorem metadata_agrees (fs : FS) (ops : List Op) (f1 f2 : Option Nat)
-    (hn : noClobber { fs := fs } ops f1 = true) :
-    let o := apply .metadataFirst fs ops f1 f2
+theorem metadata_agrees (jc : Bool) (fs : FS) (ops : List Op) (f1 f2 : Option Nat)
+    (hn : noClobber jc { fs := fs } ops f1 = true)
+    (hj : jc = true ∨ noModeChange jc { fs := fs } ops f1 = true) :
+    let o := apply .metadataFirst jc fs ops f1 f2
     (o.fs = fs ∧ o.md = .old) ∨
-    (o.md = .new ∧ (runOps { fs := fs } ops f1).2 = none ∧
-      ∀ q, (∀ p ∈ (runOps { fs := fs } ops f1).1.pending, p.isPrefixOf q = false) →
-        get o.fs q = get (runOps { fs := fs } ops f1).1.fs q) := by
-  cases he : (runOps { fs := fs } ops f1).2 with
+    (o.md = .new ∧ (runOps jc { fs := fs } ops f1).2 = none ∧
+      ∀ q, (∀ p ∈ (runOps jc { fs := fs } ops f1).1.pending, p.isPrefixOf q = false) →
+        get o.fs q = get (runOps jc { fs := fs } ops f1).1.fs q) := by
+  cases he : (runOps jc { fs := fs } ops f1).2 with
   | some e =>
-    have := apply_phase12_failure_restores .metadataFirst fs ops f1 f2 e hn he
+    have := apply_phase12_failure_restores .metadataFirst jc fs ops f1 f2 e hn hj he
     exact Or.inl ⟨this.1, this.2.1⟩
   | none =>
     refine Or.inr ?_
-    unfold apply
-    cases hrun : runOps { fs := fs } ops f1 with
+    unfold apply applyF
+    cases hrun : runOps jc { fs := fs } ops f1 with
     | mk m oe =>
       rw [hrun] at he
       simp only at he
       subst he
-      simp only
+      simp only [Bool.false_eq_true, if_false]
       cases hd : runDeletions m.fs m.pending f2 with
       | mk fs' raised =>
         have hg := fun q hq => get_runDeletions m.fs m.pending f2 q hq
         rw [hd] at hg
         cases raised <;> simp only [true_and] <;> exact hg
 
-/-- **Creation failures are invisible**: content that was created inside the
-limbo area `L` while the transform was being built (any entries, any number)
-disappears without trace when `finalize` removes the limbo area — every path
-outside `L` reads as before. -/
-theorem finalize_discards_limbo (fs created : FS) (L q : Path)
-    (hc : ∀ e ∈ created, L.isPrefixOf e.1 = true) (hq : L.isPrefixOf q = false) :
-    get (deleteAny (fs ++ created) L) q = get fs q := by
-  rw [get_deleteAny]
-  simp only [hq, Bool.false_eq_true, if_false]
-  induction fs with
-  | nil =>
-    simp only [List.nil_append]
-    rw [get_eq_none_of_not_key]
-    · rfl
-    · intro e he heq
-      have := hc e he
-      rw [heq, hq] at this
-      cases this
-  | cons e fs ih => simp only [List.cons_append, get_cons, ih]
+/-- the un-journalled code, all faults: old metadata with the old files *up to
+executable bits*, or new metadata with the new layout -/
+theorem metadata_agrees_modulo_exec (fs : FS) (ops : List Op) (f1 f2 : Option Nat)
+    (hn : noClobber false { fs := fs } ops f1 = true) :
+    let o := apply .metadataFirst false fs ops f1 f2
+    (eraseExec o.fs = eraseExec fs ∧ o.md = .old ∧ o.rollbackFailed = false) ∨
+    (o.md = .new ∧ (runOps false { fs := fs } ops f1).2 = none) := by
+  obtain ⟨r, hr, he⟩ := rollback_restores_modulo_exec fs ops f1 hn
+  unfold apply applyF
+  cases hrun : runOps false { fs := fs } ops f1 with
+  | mk m oe =>
+    rw [hrun] at hr
+    simp only at hr
+    cases oe with
+    | some e => left; simp [hr, he]
+    | none =>
+      right
+      simp only [Bool.false_eq_true, if_false]
+      cases hd : runDeletions m.fs m.pending f2 with
+      | mk fs' raised => cases raised <;> simp
+
+/-- deleting never creates an entry -/
+theorem runDeletions_get_none (fs : FS) (ps : List Path) (q : Path) (h : get fs q = none) :
+    get (runDeletions fs ps none).1 q = none := by
+  induction ps generalizing fs with
+  | nil => exact h
+  | cons p rest ih =>
+    unfold runDeletions
+    simp only [reduceCtorEq, if_false, Option.map_none]
+    cases hd : deleteOne fs p with
+    | error e => exact h
+    | ok fs' =>
+      apply ih
+      unfold deleteOne at hd
+      split at hd
+      · cases hd
+      · split at hd
+        · cases hd
+        · cases hd; rw [get_removeKey]; split <;> simp [h]
+      · cases hd; rw [get_removeKey]; split <;> simp [h]
+
+/-- **Creation failures are invisible**: `finalize` runs `delete_any` over the
+limbo files (children first) and then over the limbo directory `L` itself.
+Whatever content was created inside `L` while the transform was being built,
+in whatever order the paths are deleted and wherever that loop stops (a fault
+or a failing `delete_any`), every path outside `L` reads as before. -/
+theorem finalize_discards_limbo (fs : FS) (ps : List Path) (fault : Option Nat) (L q : Path)
+    (hc : ∀ p ∈ ps, L.isPrefixOf p = true) (hq : L.isPrefixOf q = false) :
+    get (runDeletions fs ps fault).1 q = get fs q := by
+  apply get_runDeletions
+  intro p hp
+  cases h : p.isPrefixOf q
+  · rfl
+  · rw [pre_trans (hc p hp) h] at hq; cases hq
+
+/-- …and when every `delete_any` succeeds, nothing is left at the deleted paths -/
+theorem runDeletions_removes (fs : FS) (ps : List Path) (p : Path) (hp : p ∈ ps)
+    (h : (runDeletions fs ps none).2 = none) : get (runDeletions fs ps none).1 p = none := by
+  induction ps generalizing fs with
+  | nil => cases hp
+  | cons p0 rest ih =>
+    unfold runDeletions at h ⊢
+    simp only [reduceCtorEq, if_false, Option.map_none] at h ⊢
+    cases hd : deleteOne fs p0 with
+    | error e => simp [hd] at h
+    | ok fs' =>
+      simp only [hd] at h ⊢
+      by_cases hmem : p ∈ rest
+      · exact ih fs' hmem h
+      · have : p = p0 := by
+          rcases List.mem_cons.mp hp with h1 | h1
+          · exact h1
+          · exact absurd h1 hmem
+        subst this
+        -- `p` is not deleted again later: the remaining loop leaves `get · p` alone
+        have hfs' : get fs' p = none := by
+          unfold deleteOne at hd
+          split at hd
+          · cases hd
+          · split at hd
+            · cases hd
+            · cases hd; rw [get_removeKey]; simp
+          · cases hd; rw [get_removeKey]; simp
+        exact runDeletions_get_none fs' rest p hfs'
 
 /-- With the deletions performed *before* the metadata update (the order found
 in the code at the pinned commit) a failure while discarding replaced content
 leaves the new file layout described by the old metadata. -/
 theorem deletions_first_witness :
-    let fs : FS := [([], .dir), ([".d"], .dir), (["a"], .file "A"), (["b"], .file "B")]
+    let fs : FS := [([], .dir), ([".d"], .dir), (["a"], .file "A" false), (["b"], .file "B" false)]
     let ops := [Op.preDelete ["b"] [".d", "x"], Op.rename ["a"] ["c"]]
-    let o := apply .deletionsFirst fs ops none (some 0)
-    noClobber { fs := fs } ops none = true ∧ o.md = .old ∧ o.raised = some .injected ∧
-      get o.fs ["a"] = none ∧ get o.fs ["c"] = some (.file "A") ∧ get fs ["a"] = some (.file "A") := by
+    let o := apply .deletionsFirst true fs ops none (some 0)
+    noClobber true { fs := fs } ops none = true ∧ o.md = .old ∧ o.raised = some .injected ∧
+      get o.fs ["a"] = none ∧ get o.fs ["c"] = some (.file "A" false) ∧
+      get fs ["a"] = some (.file "A" false) := by
   decide
 
 /-- `noClobber` is needed: a rename that silently replaces an existing file
 cannot be rolled back. -/
 theorem clobber_witness :
-    let fs : FS := [([], .dir), (["a"], .file "A"), (["b"], .file "B")]
+    let fs : FS := [([], .dir), (["a"], .file "A" false), (["b"], .file "B" false)]
     let ops := [Op.rename ["a"] ["b"], Op.rename ["b"] ["c"]]
-    noClobber { fs := fs } ops (some 1) = false ∧
-      (apply .metadataFirst fs ops (some 1) none).fs ≠ fs := by
+    noClobber true { fs := fs } ops (some 1) = false ∧
+      (apply .metadataFirst true fs ops (some 1) none).fs ≠ fs := by
   decide
 
-/-- non-vacuity of `rollback_restores`: a swap through limbo, fault at the last step -/
+/-- **The un-journalled `_set_executability` breaks "restores exactly"**: revert
+of an executable-bit change plus a rename, fault at the second rename.  No
+rename clobbers anything, the rollback succeeds, the rename is undone — and
+file `a` keeps the new mode although the metadata (and everything else) is back
+in the old state.  With the mode change journalled the same run restores the
+file system exactly. -/
+theorem execbit_witness :
+    let fs : FS := [([], .dir), ([".l"], .dir), (["a"], .file "A" true), (["zz"], .file "Z" false)]
+    let ops := [Op.rename ["zz"] [".l", "1"], Op.chmod ["a"] false, Op.rename [".l", "1"] ["z"]]
+    let o := apply .metadataFirst false fs ops (some 2) none
+    noClobber false { fs := fs } ops (some 2) = true ∧ o.raised = some .injected ∧
+      o.rollbackFailed = false ∧ o.md = .old ∧
+      o.fs ≠ fs ∧ get o.fs ["a"] = some (.file "A" false) ∧ eraseExec o.fs = eraseExec fs ∧
+      (apply .metadataFirst true fs ops (some 2) none).fs = fs := by
+  decide
+
+/-- A failure of the metadata update itself (`apply_inventory_delta` /
+`_apply_index_changes` run after the `try … rollback` block) is outside the
+property's quantifier (it is not a rename, deletion or creation) and is not
+recovered: the files are in the new layout, nothing has been discarded yet, the
+metadata is the old one.  The harness injects this fault too and compares. -/
+theorem metadata_fault_outcome (jc : Bool) (fs : FS) (ops : List Op)
+    (h : (runOps jc { fs := fs } ops none).2 = none) :
+    let o := applyF .metadataFirst jc fs ops { metaUpdate := true }
+    o.fs = (runOps jc { fs := fs } ops none).1.fs ∧ o.md = .old ∧ o.raised = some .injected := by
+  unfold applyF
+  cases hrun : runOps jc { fs := fs } ops none with
+  | mk m oe =>
+    rw [hrun] at h
+    simp only at h
+    subst h
+    simp
+
+/-- **A second failure, inside `rollback`, loses nothing**: whenever the
+un-faulted rollback of a journal reaches `r`, a rollback that is interrupted
+before its `j`-th undo step stops in a state from which undoing the remaining
+journal entries still reaches `r` (the names under which the remaining entries
+were journalled are still the right ones). -/
+theorem rollback_fault_resumable (js : List JEntry) (fs r : FS) (j : Nat)
+    (h : rollbackRev fs js none = (r, none)) :
+    ∃ fsj, rollbackRev fs js (some j) = (fsj, if j < js.length then some .injected else none) ∧
+      rollbackRev fsj (js.drop j) none = (r, none) := by
+  induction js generalizing fs j with
+  | nil => exact ⟨fs, by simp [rollbackRev], by simpa [rollbackRev] using h⟩
+  | cons e rest ih =>
+    cases j with
+    | zero => exact ⟨fs, by simp [rollbackRev], by simpa using h⟩
+    | succ j =>
+      simp only [rollbackRev, Option.map_none] at h
+      cases hu : undo fs e with
+      | error err => simp [hu] at h
+      | ok fs1 =>
+        simp only [hu] at h
+        obtain ⟨fsj, h1, h2⟩ := ih fs1 j h
+        refine ⟨fsj, ?_, ?_⟩
+        · simp only [rollbackRev, Option.some.injEq, Nat.add_one_ne_zero, if_false, hu, Option.map_some,
+            Nat.add_sub_cancel, h1, List.length_cons, Nat.add_lt_add_iff_right]
+        · simpa using h2
+
+/-- a second failure, inside `rollback`, stops the rollback where it is: the
+journal entries newer than the failing one have been undone, the others not -/
+theorem rollback_fault_witness :
+    let fs : FS := [([], .dir), ([".l"], .dir), (["a"], .file "A" false), (["b"], .file "B" false)]
+    let ops := [Op.rename ["a"] [".l", "1"], Op.rename ["b"] [".l", "2"], Op.rename [".l", "1"] ["c"]]
+    let o := applyF .metadataFirst true fs ops { mover := some 2, undo := some 1 }
+    o.rollbackFailed = true ∧ o.md = .old ∧
+      get o.fs ["b"] = some (.file "B" false) ∧ get o.fs ["a"] = none ∧
+      get o.fs [".l", "1"] = some (.file "A" false) := by
+  decide
+
+/-- non-vacuity of `rollback_restores`: a swap through limbo with a mode change, fault at the last step -/
 example :
-    let fs : FS := [([], .dir), ([".l"], .dir), (["a"], .file "A"), (["b"], .dir), (["b", "x"], .file "X")]
+    let fs : FS := [([], .dir), ([".l"], .dir), (["a"], .file "A" false), (["b"], .dir), (["b", "x"], .file "X" true)]
     let ops := [Op.rename ["b"] [".l", "1"], Op.rename ["a"] [".l", "2"],
-                Op.rename [".l", "1"] ["a"], Op.rename [".l", "2"] ["b"]]
-    noClobber { fs := fs } ops (some 3) = true ∧ (runOps { fs := fs } ops (some 3)).1.past.length = 3 := by
+                Op.rename [".l", "1"] ["a"], Op.chmod ["a", "x"] false, Op.rename [".l", "2"] ["b"]]
+    noClobber true { fs := fs } ops (some 4) = true ∧
+      (runOps true { fs := fs } ops (some 4)).1.past.length = 4 ∧
+      get (runOps true { fs := fs } ops (some 4)).1.fs ["a", "x"] = some (.file "X" false) := by
+  decide
+
+/-- non-vacuity of `rollback_restores_partial`: the mode change re-asserts the current bit -/
+example :
+    let fs : FS := [([], .dir), ([".l"], .dir), (["a"], .file "A" true), (["b"], .file "B" false)]
+    let ops := [Op.rename ["b"] [".l", "1"], Op.chmod ["a"] true, Op.rename [".l", "1"] ["c"]]
+    noClobber false { fs := fs } ops (some 2) = true ∧ noModeChange false { fs := fs } ops (some 2) = true ∧
+      (runOps false { fs := fs } ops (some 2)).1.past.length = 1 := by
+  decide
+
+/-- non-vacuity of `rollback_fault_resumable` -/
+example :
+    rollbackRev [([], .dir), ([".l"], .dir), ([".l", "1"], .file "A" false), (["c"], .file "B" true)]
+      [.mode ["c"] false, .ren ["a"] [".l", "1"]] none =
+    ([([], .dir), ([".l"], .dir), (["a"], .file "A" false), (["c"], .file "B" false)], none) := by
+  decide
+
+/-- non-vacuity of `metadata_fault_outcome` -/
+example :
+    let fs : FS := [([], .dir), (["a"], .file "A" false)]
+    (runOps true { fs := fs } [Op.rename ["a"] ["b"]] none).2 = none := by
   decide
 
 end BreezyVerif.C13
